@@ -128,6 +128,9 @@ impl<'a> Prog<'a> {
         self.lines.push(line.clone());
         self.run.case(line, format!("{} | {}", res, obs));
     }
+    pub fn lines_text(&self) -> String {
+        self.lines.join("\n")
+    }
     fn replay_text(&self) -> String {
         self.lines.join("\n")
     }
@@ -143,6 +146,35 @@ impl<'a> Prog<'a> {
                 self.dec = Dec::Plain(d, r);
             }
         }
+    }
+    pub fn add_dict(&mut self, dict: &[u8]) -> bool {
+        self.unstream();
+        let res = guarded(|| ruzstd::decoding::Dictionary::decode_dict(dict));
+        let (s, ok) = match res {
+            Ok(Ok(d)) => {
+                let id = d.id;
+                let _ = self.fd().add_dict(d);
+                (format!("ok {}", id), true)
+            }
+            Ok(Err(_)) => ("err dict".to_string(), false),
+            Err(p) => {
+                self.oracle_fail("C03", "panic_decode_dict", format!("panic in Dictionary::decode_dict: {}", p));
+                ("fault".to_string(), false)
+            }
+        };
+        self.emit(format!("dec adddict {}", hex(dict)), s);
+        ok
+    }
+    pub fn force_dict(&mut self, id: u32) -> bool {
+        self.unstream();
+        let r = self.fd().force_dict(id);
+        let ok = r.is_ok();
+        let s = match r {
+            Ok(()) => "ok".to_string(),
+            Err(e) => frame_err(&e),
+        };
+        self.emit(format!("dec forcedict {}", id), s);
+        ok
     }
     pub fn set_max(&mut self, w: u64) {
         self.fd().set_max_window_size(w);
